@@ -4,6 +4,7 @@ import (
 	"fmt"
 	"maps"
 	"os"
+	"runtime"
 	"slices"
 	"sync"
 )
@@ -67,4 +68,69 @@ L:
 	if len(os.Args) > 1 {
 		os.Exit(3)
 	}
+}
+
+func runtimeGosched() { runtime.Gosched() }
+
+func init() {
+	// select: worker pool with a quit channel, default case, buffered results
+	jobs := make(chan int, 8)
+	results := make(chan int, 8)
+	quit := make(chan struct{})
+	var wg sync.WaitGroup
+	for w := 0; w < 3; w++ {
+		wg.Add(1)
+		go func(id int) {
+			defer wg.Done()
+			for {
+				select {
+				case j, ok := <-jobs:
+					if !ok {
+						return
+					}
+					results <- j * j
+				case <-quit:
+					return
+				}
+			}
+		}(w)
+	}
+	for i := 1; i <= 5; i++ {
+		jobs <- i
+	}
+	close(jobs)
+	wg.Wait()
+	close(quit)
+	sum := 0
+	order := []int{}
+	for {
+		var v int
+		got := false
+		select {
+		case v = <-results:
+			got = true
+		default:
+		}
+		if !got {
+			break
+		}
+		sum += v
+		order = append(order, v)
+	}
+	fmt.Println("select-sum", sum, len(order))
+	fmt.Println("select-order", order)
+	// unbuffered hand-off through select-send to a plain receiver
+	u := make(chan string)
+	fin := make(chan bool)
+	go func() { fmt.Println("got", <-u); fin <- true }()
+	sent := false
+	for !sent {
+		select {
+		case u <- "hello":
+			sent = true
+		default:
+			runtimeGosched()
+		}
+	}
+	<-fin
 }
